@@ -21,7 +21,7 @@ PROP = dict(
     trusted=_COMMON + [
         "strace 6.1 reports every system call of the traced process tree in order, and inject=...:signal=SIGKILL:when=N kills the process before the call executes",
         "modelled, not verified: POSIX semantics of openat(O_CREAT|O_EXCL), ftruncate, write, unlinkat and the atomicity of renameat (Model/Fs.v step); bytes reach the file in write order (no power-loss reordering: the property is about process death, not about fsync)",
-        "the new contents of each table are taken from the undisturbed run (what the encoder writes is C02/C05's business)",
+        "the encoded records of each table are taken from the undisturbed run (what the encoder writes is C02/C05's business); the line break that ends the file is NOT: the harness expects the file's own line break for an updated table and the session's --line-break for a created one",
     ],
     assumptions=[
         "crash = death of the csvq process between two system calls (SIGKILL); the operating system and the disk survive",
